@@ -441,3 +441,96 @@ pub fn addsub_pair_big(max_len: usize) -> BoxedStrategy<(Vec<u64>, Vec<u64>)> {
         })
         .boxed()
 }
+
+// ------------------------------------------------------------------------------------------
+// dividend/divisor pairs (C03, reused by C05/C10/C14/C15)
+
+use crate::refint::Nat as RNat;
+
+fn rnat(d: &[u64]) -> RNat {
+    RNat::from_u64_digits(d)
+}
+
+/// (a, b) with b != 0, from the families of DESIGN.md C03
+pub fn div_pair(max_len: usize) -> BoxedStrategy<(Vec<u64>, Vec<u64>)> {
+    let ml = max_len.max(4);
+    let hl = (ml / 2).max(2);
+    prop_oneof![
+        // independent
+        15 => (nat(ml), nat_nonzero(hl)),
+        // single-digit divisors
+        8 => (nat(ml), prop_oneof![
+                select(vec![1u64, 2, 3, 10, 1 << 31, 1 << 32, (1 << 32) - 1, (1 << 32) + 1, 1 << 63, MAX, MAX - 1]),
+                (0u32..64).prop_map(|k| 1u64 << k),
+                digit().prop_map(|d| d | 1),
+            ]).prop_map(|(a, d)| (a, vec![d])),
+        // a < b, a == b, equal lengths, a = b +- 1
+        8 => (nat_range(2, hl), -2i64..=2).prop_map(|(b, d)| {
+                let b = if b.is_empty() { vec![1, 1] } else { b };
+                let bn = crate::refint::RefInt::from_digits(false, &b);
+                let an = bn.add(&crate::refint::RefInt::from_i128(d as i128));
+                let a = if an.neg { vec![] } else { an.mag.to_u64_digits() };
+                (a, b)
+            }),
+        6 => (vec(digit(), 2..=hl), vec(digit(), 2..=hl), any::<u16>()).prop_map(|(a, b, k)| {
+                // equal length operands
+                let n = 2 + idx(k, a.len().min(b.len()) - 1);
+                let mut a = a; a.truncate(n); let mut b = b; b.truncate(n);
+                if *b.last().unwrap() == 0 { *b.last_mut().unwrap() = 1; }
+                (trim(a), b)
+            }),
+        // every normalisation shift: divisor top digit = 1<<s | low
+        10 => (nat(ml), vec(digit(), 1..=hl), 0u32..64, any::<u64>()).prop_map(|(a, mut b, s, low)| {
+                let top = (1u64 << s) | (low & ((1u64 << s) - 1));
+                b.push(top);
+                (a, b)
+            }),
+        // family A: forces add-back.  a = Q * [b1,b0] * B^k + tiny ; b = [b1,b0] * B^k + lo
+        18 => (vec(digit(), 1..=4), digit(), digit(), 0usize..=hl.saturating_sub(2).max(1), vec(digit(), 0..=3), any::<u8>(), any::<u64>())
+            .prop_map(|(q, b1, b0, k, tiny, lokind, loseed)| {
+                let b0 = if b0 == 0 { 1 } else { b0 };
+                let k = k.max(1);
+                let bt = rnat(&[b1, b0]);
+                let lo = {
+                    let mut v = expand(lokind, loseed, k);
+                    if v.iter().all(|d| *d == 0) { v[0] = 1; }
+                    v
+                };
+                let b = bt.shl(64 * k as u64).add(&rnat(&lo));
+                let mut tiny = tiny; tiny.truncate(k);
+                let a = rnat(&trim(q)).mul(&bt).shl(64 * k as u64).add(&rnat(&trim(tiny)));
+                (a.to_u64_digits(), b.to_u64_digits())
+            }),
+        // family B: remainder's top digit equals the divisor's top digit
+        18 => (digit(), 0usize..=hl.saturating_sub(2), vec(digit(), 0..=6), digit(), vec(digit(), 0..=hl))
+            .prop_map(|(t, mid, low, x, rlow)| {
+                let t = if t == 0 { 1 } else { t };
+                // b = [MAX; mid+1] ++ [t]
+                let mut b = vec![MAX; mid + 1];
+                b.push(t);
+                // r < b with the same top digit and the next digit MAX where possible
+                let n = b.len();
+                let mut r: Vec<u64> = rlow; r.resize(n, MAX); r[n - 1] = t;
+                r[0] = if x == MAX { MAX - 1 } else { x };
+                if n > 2 { r[n - 2] = MAX; }
+                // a = r * B^len(low) + low
+                let mut a = low; a.extend(r);
+                (trim(a), b)
+            }),
+        // exact products and near-products: a = q*b + r, r in {0, 1, b-1}
+        17 => (nat_nonzero(hl), nat(hl), 0u8..3).prop_map(|(b, q, rk)| {
+                let bn = rnat(&b);
+                let r = match rk { 0 => RNat::zero(), 1 => if bn.is_one() { RNat::zero() } else { RNat::one() }, _ => bn.sub(&RNat::one()) };
+                let a = rnat(&q).mul(&bn).add(&r);
+                (a.to_u64_digits(), b)
+            }),
+    ]
+    .boxed()
+}
+
+/// big division pairs for the thorough tier
+pub fn div_pair_big(max_len: usize) -> BoxedStrategy<(Vec<u64>, Vec<u64>)> {
+    let la: Vec<usize> = vec![41, 64, 100, 128, 200, 256, 400].into_iter().filter(|l| *l <= max_len).collect();
+    let lb: Vec<usize> = vec![2, 3, 20, 33, 64, 100, 128, 200].into_iter().filter(|l| *l <= max_len).collect();
+    (big_nat(la), big_nat(lb)).boxed()
+}
